@@ -3,9 +3,9 @@ from .. import engine, spec as S
 from ..runner import run_hypothesis
 
 
-def make(ID, families, check_name, profiles, n_quick, n_thorough, extra_nt=None, n_sets=6):
+def make(ID, families, check_name, profiles, n_quick, n_thorough, extra_nt=None, n_sets=6, require_binding=True):
     def prop(ctx, case):
-        engine.soundness_case(ctx, case, families, check_name, extra_nt=extra_nt)
+        engine.soundness_case(ctx, case, families, check_name, extra_nt=extra_nt, require_binding=require_binding)
 
     def run_shard(ctx):
         n = {"quick": n_quick, "thorough": n_thorough}[ctx.tier]
